@@ -289,6 +289,14 @@ def judge (prop : String) (j : Json) : R Verdict := do
         let net := bs.foldl (fun acc x => insertAsset x.1 x.2.1 (-x.2.2) acc) ms
         let expected := net.filter fun x => x.2.2 ≠ 0
         if (assetsJson atx.mint).compress != (assetsJson expected).compress then spec := spec ++ ["exact:mint"]
+      -- a mint or burn entry written with quantity zero is a value its field cannot hold: compilation fails, the
+      -- entry is never dropped (a mint and a burn that cancel are another matter)
+      let zeroEntry : List Expr → Bool := fun cs =>
+        let rec go : List Expr → Bool
+          | _ :: _ :: a :: rest => (numOf a == some 0) || go rest
+          | _ => false
+        go cs
+      if zeroEntry mintCs || zeroEntry burnCs then spec := spec ++ ["exact:zero-mint-entry-accepted"]
       -- ledger ranges of what was emitted
       if !(inU64 atx.fee) then spec := spec ++ ["range:fee"]
       if atx.outputs.any fun o => !(inU64 o.coin) || o.assets.any (fun x => x.2.2 < 1 || x.2.2 > u64Max) then
@@ -381,6 +389,10 @@ def judge (prop : String) (j : Json) : R Verdict := do
       if rep.zeroMintQuantity then spec := spec ++ ["wf:zero-mint"]
       if rep.zeroOutputAsset then spec := spec ++ ["wf:zero-output-asset"]
       if rep.emptyOptionalField then spec := spec ++ ["wf:empty-optional-field"]
+      if rep.dupWitnessMember then spec := spec ++ ["wf:duplicate-witness-set-member"]
+      if rep.emptyWitnessField then spec := spec ++ ["wf:empty-witness-set-field"]
+      -- what `compile` returns is unsigned: a key witness in it was written by nobody who holds a key
+      if rep.keyWitnesses != 0 then spec := spec ++ ["wf:key-witness-in-an-unsigned-transaction"]
       if rep.badRewardAccount then spec := spec ++ ["wf:reward-account"]
       if atx.networkId != some (if mainnet then 1 else 0) then spec := spec ++ ["network-id"]
       if atx.hasScriptDataHash != !atx.redeemers.isEmpty then spec := spec ++ ["script-data-hash-presence"]
